@@ -368,6 +368,11 @@ func Returns(fn *ssa.Function) []*ssa.Return {
 		if len(b.Instrs) == 0 {
 			continue
 		}
+		// the synthetic recover block runs only after a recovered panic; the
+		// module never calls recover(), so its return is dead code.
+		if b == fn.Recover {
+			continue
+		}
 		if r, ok := b.Instrs[len(b.Instrs)-1].(*ssa.Return); ok {
 			out = append(out, r)
 		}
@@ -903,6 +908,44 @@ func DerivesFromDirect(v ssa.Value, pred func(ssa.Value) bool) bool {
 			return false
 		}
 		if _, isCall := x.(*ssa.Call); isCall {
+			return false
+		}
+		return true
+	})
+	return found
+}
+
+// CellOfAddrOrLoad: base is (a load of) a cell whose single store is target,
+// or the address of such a cell.
+func CellOfAddrOrLoad(base ssa.Value, target ssa.Value) bool {
+	if base == nil {
+		return false
+	}
+	if Through(base) == target {
+		return true
+	}
+	if c := CellOfAddr(base); c != nil {
+		st := cellStores(c)
+		for _, s := range st {
+			if s.Addr == ssa.Value(c) && s.Val == target {
+				return true
+			}
+		}
+	}
+	return false
+}
+
+// DerivesFromDirectOrCalls: DerivesFromDirect that additionally descends into
+// the receiver/arguments of module method calls on simple value types (getter
+// chains such as hdr.GroupID()).
+func DerivesFromDirectOrCalls(v ssa.Value, pred func(ssa.Value) bool) bool {
+	found := false
+	BackSlice(v, func(x ssa.Value) bool {
+		if found {
+			return false
+		}
+		if pred(x) {
+			found = true
 			return false
 		}
 		return true
